@@ -110,7 +110,16 @@ pub struct CScript {
 #[derive(Serialize, Deserialize, Clone, Debug, PartialEq)]
 pub enum SOp {
     Ctx,
-    RegHandler { name: usize, ctx: usize, script: HScript, watched: bool },
+    RegHandler {
+        name: usize,
+        ctx: usize,
+        script: HScript,
+        watched: bool,
+        /// (watched only) `<name>.unregister` is appended while the new instance is between
+        /// its start and its subscription
+        #[serde(default)]
+        race: bool,
+    },
     Unreg { name: usize, ctx: usize },
     /// two registrations of the same (context, name) appended back to back, before the serve
     /// loop has reacted to the first
@@ -599,7 +608,7 @@ impl Run {
                 self.ctxs.push(f.id);
                 self.quiesce(chooser, vec![])?;
             }
-            SOp::RegHandler { name, ctx, script, watched } => {
+            SOp::RegHandler { name, ctx, script, watched, race } => {
                 let c = self.ctx(*ctx);
                 let n = HNAMES[name % HNAMES.len()];
                 let other = self.ctx(ctx + 1);
@@ -637,7 +646,7 @@ impl Run {
                     self.w.probe("handler:invalid-script");
                 }
                 if *watched {
-                    self.watched_start(chooser, f.id, c, n)?;
+                    self.watched_start(chooser, f.id, c, n, *race)?;
                 } else {
                     self.quiesce(chooser, vec![])?;
                 }
@@ -979,8 +988,9 @@ impl Run {
     }
 
     /// C16: a client that appends as soon as it sees `<name>.registered`.
-    fn watched_start(&mut self, chooser: &mut Chooser, hid: Scru128Id, c: Scru128Id, name: &str) -> R<()> {
+    fn watched_start(&mut self, chooser: &mut Chooser, hid: Scru128Id, c: Scru128Id, name: &str, race: bool) -> R<()> {
         let mut probed = false;
+        let mut raced = !race;
         let mut guard = 0;
         loop {
             guard += 1;
@@ -1001,9 +1011,19 @@ impl Run {
                     self.w.probe("handler:probe-after-registered");
                 }
             }
-            let picked = self.w.decide(chooser, &[], &|e| e.actor_kind != "gc")?;
-            if let Picked::Nothing = picked {
-                break;
+            // a second client un-registers the name while the instance is about to subscribe
+            let at_subscribe = !raced && self.w.ctrl.aparked().iter().any(|(_, s, d)| *s == "handler.subscribe" && *d == hid.to_u128());
+            let extra: Vec<String> = if at_subscribe { vec!["race-unregister".to_string()] } else { vec![] };
+            let picked = self.w.decide(chooser, &extra, &|e| e.actor_kind != "gc")?;
+            match picked {
+                Picked::Nothing => break,
+                Picked::Extra(_) => {
+                    self.op_append(Frame::builder(format!("{}.unregister", name), c).build())?;
+                    self.active.remove(&(c, name.to_string()));
+                    raced = true;
+                    self.w.probe("handler:unregister-races-subscription");
+                }
+                _ => {}
             }
         }
         self.drain_log();
@@ -2196,7 +2216,7 @@ pub fn generate(seed: u64, prop: &str, thorough: bool) -> Plan {
                 4 => SOp::CallBurst { name: rng.below(2), ctx: rng.below(nctx + 1), n: rng.range(2, 4) },
                 5 => SOp::Tick { ms: 1000 },
                 6 => SOp::Trigger { ctx: rng.below(nctx + 1), fail: rng.chance(15), eph: false, selfstop: rng.chance(8) },
-                7 => SOp::RegHandler { name: rng.below(2), ctx: rng.below(nctx + 1), script: gen_hscript(&mut rng, "C17"), watched: false },
+                7 => SOp::RegHandler { name: rng.below(2), ctx: rng.below(nctx + 1), script: gen_hscript(&mut rng, "C17"), watched: false, race: false },
                 9 => SOp::Unreg { name: rng.below(2), ctx: rng.below(nctx + 1) },
                 _ => SOp::Foreign { ctx: rng.below(nctx + 1) },
             };
@@ -2312,7 +2332,10 @@ pub fn generate(seed: u64, prop: &str, thorough: bool) -> Plan {
                         script.ret = Ret::Record;
                     }
                 }
-                SOp::RegHandler { name: rng.below(2), ctx: rng.below(nctx + 1), script, watched }
+                {
+                    let race = watched && rng.chance(50);
+                    SOp::RegHandler { name: rng.below(2), ctx: rng.below(nctx + 1), script, watched, race }
+                }
             }
             1 => {
                 if prop == "C16" && rng.chance(30) {
